@@ -40,6 +40,7 @@ impl C03 {
             sets.push(TitleSet { name: "corpus-words-embedded".into(), l, titles: Titles::List(embed_contexts(l, &corpus)), nctx: 1, block: 1500 });
             sets.push(TitleSet { name: "lexicon-titles<=3w".into(), l, titles: Titles::Words { lex: lex_strings(l), maxw: 3 }, nctx: 3, block: 300 });
             sets.push(TitleSet { name: "lexicon-titles<=2w in a crowd of 25".into(), l, titles: Titles::Words { lex: lex_strings(l), maxw: 2 }, nctx: 4, block: 20 });
+            sets.push(TitleSet { name: "lexicon words in a crowd of 120 (limit 120, more than 100 records share the typed prefix)".into(), l, titles: Titles::Words { lex: lex_strings(l), maxw: 1 }, nctx: 5, block: 2 });
             sets.push(TitleSet { name: "long words 19..36 letters".into(), l, titles: Titles::List(long_word_titles(l)), nctx: 4, block: 4 });
             sets.push(TitleSet { name: "function-word prefix pairs: titles<=4w".into(), l, titles: Titles::Words { lex: fw_prefix_lexicon(l), maxw: tier.pick(3, 4) }, nctx: 2, block: 200 });
             sets.push(TitleSet { name: format!("F1<={}", tier.pick(6, 8)), l, titles: Titles::Chars { fam: fam1(l), lo: 0, hi: tier.pick(6, 8) }, nctx: 3, block: 400 });
